@@ -40,7 +40,7 @@ Definition vcheck_env (c : vcase) (e1 e2 : Env) : bool :=
   let s := VSt (list_to_map (vc_before c)) (vc_index c) in
   let '(s', r) := assign_manual e1 e2 (vc_idx c) (vc_svc c) (vc_ips c) s in
   bool_decide (s' = VSt (list_to_map (vc_after c)) (vc_index_after c)) &&
-  bool_decide (canon_vres r = canon_vres (VRes (vc_found c) (vc_unassigned c))).
+  bool_decide (r = VRes (vc_found c) (vc_unassigned c)).   (* the raw list, in the order the code returned it *)
 
 Definition vcheck (c : vcase) : bool := vcheck_env c env_id env_id && vcheck_env c env_rev env_rev.
 Definition vmismatches (cs : list vcase) : list N := failing_from vcheck 0 cs.
